@@ -135,6 +135,17 @@ theorem ssa_removeParam_sound (w : World) (c : Cert) (g : Func) (h : WF c g) (b 
     run w (removeParam g b idx p u) args fuel = run w g args fuel :=
   removeParam_run h hB hb hp hred w args fuel
 
+/-- non-vacuity: the second parameter `v7` of the loop header of the example; its incoming values are `v4` (from
+the entry) and `v7` itself (from the back edge) -/
+example (w : World) (args : List Nat) (fuel : Nat) :
+    run w (removeParam (deadBlockElim ssaExample) 1 1 7 4) args fuel = run w (deadBlockElim ssaExample) args fuel :=
+  ssa_removeParam_sound w (computeCert (deadBlockElim ssaExample)) (deadBlockElim ssaExample)
+    (ssa_wellFormed_spec (by decide)) 1 1 7 4 .i32
+    { id := 1, key := 6, invalid := false, params := [(6, .i32), (7, .i32)],
+      instrs := [.bin .iadd 8 .i32 7 6, .store .store .i32 8 0 0, .iconst 9 .i32 1, .bin .isub 10 .i32 6 9,
+                 .brnz 10 1 [10, 7], .jump 2 []] }
+    (by decide) (by decide) (by decide) (by decide) args fuel
+
 /-- **No-op elimination**: aliasing the result of `Ishl/Sshr/Ushr` by a constant multiple of the width to its
 first operand. -/
 theorem ssa_nopElim_sound (w : World) (c : Cert) (g : Func) (h : WF c g) (args : List Nat) (fuel : Nat) :
